@@ -7,6 +7,7 @@
 #include "core/tbfinteraction.hpp"
 
 #include <vector>
+#include <type_traits>
 #include <array>
 #include <cassert>
 
@@ -222,9 +223,10 @@ public:
 
         bool shouldContinue = false;
 
-        std::array<IndexType,Dim> mcoord;
+        // Unsigned: the last shift of the loop moves the highest bits out
+        std::array<std::make_unsigned_t<IndexType>,Dim> mcoord;
         for(long int idxDim = 0 ; idxDim < Dim ; ++idxDim){
-            mcoord[idxDim] = (inBoxPos[idxDim] << (Dim - idxDim - 1));
+            mcoord[idxDim] = (static_cast<std::make_unsigned_t<IndexType>>(inBoxPos[idxDim]) << (Dim - idxDim - 1));
             shouldContinue |= (0 < inBoxPos[idxDim]);
         }
 
@@ -233,7 +235,7 @@ public:
             shouldContinue = false;
             idxBit += 1;
             for(long int idxDim = Dim-1 ; idxDim >= 0 ; --idxDim){
-                index |= (mcoord[idxDim] & mask);
+                index |= static_cast<IndexType>(mcoord[idxDim] & static_cast<std::make_unsigned_t<IndexType>>(mask));
                 mask <<= 1;
                 mcoord[idxDim] <<= (Dim-1);
                 shouldContinue |= (0 < (inBoxPos[idxDim] >> idxBit));
